@@ -173,6 +173,45 @@ def analyse(text, variant, qs):
     return r, fails, {"parts": len(ops), "pruned_nonzero": npruned, "car": cars.get("c"), "back_max": max(back.values()) if back else None}
 
 
+UNSOUND = [("hubbard-atom, custom candidate n_0*n_1 (accepted by checkSymmetry: DESIGN.md section 5 item 5, property C07)",
+            "site A 1 2\naddCoulombS A 1 -0.5\nsymm custom\niom 1 1 4 1 0 0 0 1 1 0 1\nbeta 1\n", ["opsingle 0", "opsingle 1", "quad 0 1"])]
+
+
+def unsound_tie(chk):
+    """On a partition that the field operators do NOT respect (an image state lies in another block) the property cannot hold;
+    what is compared here is only model vs implementation: S.getInnerState(L) is the position in L's own block, so the
+    code (and the model) fill a wrong cell or read outside HTo.  Whether such partitions can arise is C07's subject."""
+    for name, text, qs in UNSOUND:
+        r = edlib.run(text, qs, variant="real")
+        if r.error or r.crash or not r.dumprec("VEC"):
+            continue
+        rc, mo, err = hl.model(r.dump, ["ops"])
+        ops = hl.opmats(r.dump)
+        outside = sum(int(t[3]) for t in mo if t[0] == "OUTSIDE")
+        agree, oob, bad = 0, 0, None
+        for t in mo:
+            if t[0] != "MOPD" or t[1] == "c":
+                continue
+            key = (t[1], int(t[2]), int(t[3]), int(t[4]))
+            if t[5] == "FAIL":
+                oob += 1
+                continue
+            rows, cols, mv = int(t[5]), int(t[6]), hl.cplx_list(t[7:])
+            es = ops[key][2]
+            okk = (ops[key][0], ops[key][1]) == (rows, cols) and all(
+                close(es.get((i, j), 0.0), mv[i * cols + j]) for i in range(rows) for j in range(cols))
+            agree += okk
+            if not okk:
+                bad = bad or key
+        chk.case("unsound|" + hl.canon(text), "unsound-partition-tie|" + ("respected" if outside == 0 else "not-respected"), nontrivial=True,
+                 sample={"scenario": hl.canon(text), "what": name, "JW_entries_outside_stored_blocks": outside, "parts_model_equals_implementation": agree,
+                         "parts_where_model_says_OOB": oob})
+        chk.extra["unsound_partition_observed"] = {"scenario": hl.canon(text), "what": name, "JW_entries_outside_stored_blocks": outside,
+                                                   "note": "not reported under C10: the partition comes from the symmetry analysis (C07); model == implementation on it"}
+        if bad:
+            chk.tie_broken("model on a partition the operator does not respect", "part %r of scenario %s" % (bad, hl.canon(text)))
+
+
 def report(chk, variant, text, qs, fails):
     seen = set()
     for fk, is_impl, detail in fails:
@@ -184,7 +223,11 @@ def report(chk, variant, text, qs, fails):
             if fk == "driver":
                 chk.tie_broken("driver_c03", detail)
             continue
-        small = hl.shrink(text, lambda cand: any(f[0] == fk for f in analyse(cand, variant, qs)[1]))
+        cnt = chk.extra.setdefault("failures_by_kind", {})
+        cnt[fk + "|" + variant] = cnt.get(fk + "|" + variant, 0) + 1
+        if cnt[fk + "|" + variant] > 2:
+            continue                      # two shrunk instances per kind and build are reported; the count stays in the evidence
+        small = hl.shrink(text, lambda cand: any(f[0] == fk for f in analyse(cand, variant, qs)[1])) 
         _, f2, _ = analyse(small, variant, qs)
         d2 = next((f[2] for f in f2 if f[0] == fk), detail)
         rep = {"check": "C10", "kind": fk, "variant": variant, "scenario": small, "original": text, "queries": qs, "detail": d2}
@@ -214,6 +257,7 @@ def run(chk):
     else:
         plan.append(("complex", True, 100))
         plan.append(("complex", False, 30))
+    unsound_tie(chk)
     worst = {"back": 0.0, "car": 0.0, "parts": 0, "pruned_nonzero": 0}
     for variant, cplx, count in plan:
         edlib.binaries(variant)
